@@ -559,7 +559,7 @@ def run(project, chk):
     from checks import _optional
     cli_funcs = [q for q, f2 in project.funcs.items() if f2.module.name == CLI and q not in project.outside_surface]
     n_sites = _optional.check(project, chk, "X11", cli_funcs, "escapes into the per-rule handler, which counts the rule again as needing attention")
-    chk.floor("dereferences of regex matches in cli/main.py", n_sites, 4)
+    chk.floor("dereferences of regex matches in cli/main.py", n_sites, 2)
 
 
 REPORT = "cm_colors.cli.html_report.generate_report"
